@@ -29,7 +29,7 @@ Ltac dmi :=
       end
   end.
 
-Ltac unf := unfold get_conn, put_conn, log_cb, items_get, items_delete, items_entomb, timer_stop, timer_release,
+Ltac unf := unfold get_conn, put_conn, log_cb, items_get, items_delete_tomb, items_delete, items_entomb, timer_stop, timer_release,
   timer_new, tomb_count, set_conns, set_items, set_timers, set_next_tm, set_next_call, set_gcs, set_cblog, set_sent, set_panic in *; cbn in *.
 
 Lemma exec_sim : forall cf a b i room, coreq a b ->
